@@ -384,6 +384,14 @@ def run(R):
         boots = rng.choice((0, 1, 255, 65536, 2**31 - 2))
         tshift = rng.choice((0, 5, 86400, 10**8))
         marker = hashlib.sha256(b"marker-%d-%d" % (R.seed, i)).digest()[:16]
+        if i % 5 == 2:
+            # pass-phrases are octet strings: surrounding white-space, NUL and high octets
+            # belong to them (RFC 3414 A.2 hashes them as they are)
+            edge = (b" ", b"\t", b"\n", b"\r\n", b"\x00", b"\xff", b"  ")
+            priv_pw = edge[i % 7] + priv_pw + edge[(i // 7) % 7]
+            if i % 2:
+                auth_pw = edge[(i // 3) % 7] + auth_pw + edge[(i // 5) % 7]
+            R.mon["passphrases_with_surrounding_whitespace_or_nul"] += 1
         if i % 3 == 0:
             # same user on the same engine across cases of this process, with other
             # passwords: anything remembered per (user, engine) becomes stale
